@@ -69,6 +69,7 @@ func c07MidRead(r *ev.Run) {
 		commit bool // the writer ends with COMMIT (else ROLLBACK)
 		j, k   int
 		nest   bool // the callback of the first row makes a select-like call on the same handle itself
+		warm   bool // the handle has made complete calls (Columns, the operation itself) before the writer begins
 	}
 	var jobs []job
 	for oi := range ops {
@@ -83,9 +84,12 @@ func c07MidRead(r *ev.Run) {
 						if !r.Thorough() && grown && k != j && (k-j)%3 != 1 && k != n {
 							continue // quick: a third of the (j, k) pairs on the larger file
 						}
-						jobs = append(jobs, job{oi, grown, commit, j, k, false})
+						jobs = append(jobs, job{oi, grown, commit, j, k, false, false})
 						if j >= 1 && (k-j)%3 == 0 {
-							jobs = append(jobs, job{oi, grown, commit, j, k, true})
+							jobs = append(jobs, job{oi, grown, commit, j, k, true, false})
+						}
+						if !grown && (r.Thorough() || k == j || (k-j)%3 == 1 || k == n) {
+							jobs = append(jobs, job{oi, grown, commit, j, k, false, true})
 						}
 					}
 				}
@@ -108,11 +112,11 @@ func c07MidRead(r *ev.Run) {
 		w := <-peers
 		defer func() { peers <- w }()
 		jb := jobs[i]
-		c07MidOne(r, dir, base, w, ops[jb.op], jb.grown, jb.commit, jb.j, jb.k, jb.nest)
+		c07MidOne(r, dir, base, w, ops[jb.op], jb.grown, jb.commit, jb.j, jb.k, jb.nest, jb.warm)
 	})
 }
 
-func c07MidOne(r *ev.Run, dir string, base []byte, w *Peer, op c07MidOp, grown, commit bool, j, k int, nest bool) {
+func c07MidOne(r *ev.Run, dir string, base []byte, w *Peer, op c07MidOp, grown, commit bool, j, k int, nest, warm bool) {
 	id := atomic.AddInt64(&c07MidSeq, 1)
 	path := filepath.Join(dir, fmt.Sprintf("m%d.sqlite", id))
 	os.WriteFile(path, base, 0o644)
@@ -128,6 +132,9 @@ func c07MidOne(r *ev.Run, dir string, base []byte, w *Peer, op c07MidOp, grown, 
 	}
 	if nest {
 		handle += ", nested call in the first callback"
+	}
+	if warm {
+		handle = "used before (Columns and the operation itself, run to the end)"
 	}
 	art := map[string]interface{}{"family": "mid-read", "operation": op.name, "handle": handle, "writer_begins_and_updates_at_row": j, "writer_ends_at_row": k, "writer_ends_with": end}
 	r.Eval(1)
@@ -167,6 +174,17 @@ func c07MidOne(r *ev.Run, dir string, base []byte, w *Peer, op c07MidOp, grown, 
 		return
 	}
 	ref.H.Close()
+	if warm {
+		// lock cycles this handle has been through before the one under test
+		if _, err := e.H.Columns("s"); err != nil {
+			r.Harness("warm-up Columns: %v", err)
+			return
+		}
+		if err := op.run(e.H, func([]interface{}) {}); err != nil {
+			r.Harness("warm-up read: %v", err)
+			return
+		}
+	}
 
 	wpid := 0
 	if st, rest := w.Do("pid"); st == "ok" {
@@ -280,6 +298,9 @@ func c07MidOne(r *ev.Run, dir string, base []byte, w *Peer, op c07MidOp, grown, 
 	}
 	if nest {
 		kind += "+nested"
+	}
+	if warm {
+		kind = "warm"
 	}
 	if exclusiveSeen != "" {
 		r.Violation("C07:mid-read:writer-exclusive-during-read:"+kind, fmt.Sprintf("%s (%s handle), writer begins at row %d: the writer holds EXCLUSIVE %s while the read is still delivering rows", op.name, handle, j, exclusiveSeen), art)
